@@ -133,7 +133,7 @@ class Const(Expr):
         if type(self.val) == int:
             return Int(self.val)
         elif type(self.val) == bool:
-            return true if self.val else false
+            return term.true if self.val else term.false
         else:
             raise NotImplementedError
 
